@@ -323,6 +323,9 @@ inductive PExpr where
 inductive PArgs where
   | nil
   | cons (sep : Nat) (e : PExpr) (rest : PArgs)
+  /-- an element of an aggregate initialiser that is a repetition count `[ x : count ]`: the list holds a wrapper node
+  (Type_Repeat) whose `e.op1` is the count expression — the writer prints the count, the bound sees the wrapper -/
+  | rep (sep : Nat) (count : PExpr) (rest : PArgs)
 end
 
 mutual
@@ -335,19 +338,23 @@ def PExpr.strLen : PExpr → Nat
 def PArgs.strLen : PArgs → Nat
   | .nil => 0
   | .cons s e r => s + e.strLen + r.strLen
+  | .rep s e r => s + e.strLen + r.strLen
 end
 
 mutual
-/-- `EXPRstring_bound` with its constants: `base` per node, `per` per list element, `kf` times the length of a leaf's text -/
-def PExpr.bound (base per kf : Nat) : PExpr → Nat
+/-- `EXPRstring_bound` with its constants: `base` per node, `per` per list element, `kf` times the length of a leaf's text;
+`rc`: for a repetition count the bound descends into the count expression, as the writer does (else it only sees the
+wrapper node: `base`) -/
+def PExpr.bound (base per kf : Nat) (rc : Bool) : PExpr → Nat
   | .leaf _ n _ => base + kf * n
-  | .query _ n a b => base + n + a.bound base per kf + b.bound base per kf
-  | .funcall _ n as => base + n + as.bound base per kf
-  | .op _ a b => base + a.bound base per kf + b.bound base per kf
-  | .list _ as => base + as.bound base per kf
-def PArgs.bound (base per kf : Nat) : PArgs → Nat
+  | .query _ n a b => base + n + a.bound base per kf rc + b.bound base per kf rc
+  | .funcall _ n as => base + n + as.bound base per kf rc
+  | .op _ a b => base + a.bound base per kf rc + b.bound base per kf rc
+  | .list _ as => base + as.bound base per kf rc
+def PArgs.bound (base per kf : Nat) (rc : Bool) : PArgs → Nat
   | .nil => 0
-  | .cons _ e r => per + e.bound base per kf + r.bound base per kf
+  | .cons _ e r => per + e.bound base per kf rc + r.bound base per kf rc
+  | .rep _ e r => per + (if rc then e.bound base per kf rc else base) + r.bound base per kf rc
 end
 
 mutual
@@ -362,6 +369,7 @@ def PExpr.wf (fmax smax wfac : Nat) : PExpr → Prop
 def PArgs.wf (fmax smax wfac : Nat) : PArgs → Prop
   | .nil => True
   | .cons s e r => s ≤ smax ∧ e.wf fmax smax wfac ∧ r.wf fmax smax wfac
+  | .rep s e r => s ≤ smax ∧ e.wf fmax smax wfac ∧ r.wf fmax smax wfac
 end
 
 structure ExprLenCfg where
@@ -371,11 +379,12 @@ structure ExprLenCfg where
   perArg : Nat
   needExtra : Nat
   nameFactor : Nat    -- `n += nameFactor * strlen( e->symbol.name )` for string / identifier / binary leaves
+  repeatCounted : Bool  -- for `[ x : count ]` the bound is taken of the expression the writer prints (`arg->e.op1`), not of the wrapper
   deriving Repr
 
 /-- `EXPRstring( buffer, e )` stores `strLen e + 1` bytes -/
 def exprLenOut (c : ExprLenCfg) (e : PExpr) : Outcome Nat :=
-  let need := e.bound c.base c.perArg c.nameFactor + c.needExtra
+  let need := e.bound c.base c.perArg c.nameFactor c.repeatCounted + c.needExtra
   let room := if c.sized && decide (c.cap < need) then need else c.cap
   if e.strLen + 1 ≤ room then .ok e.strLen else .overflow room
 
@@ -741,6 +750,40 @@ def renameResolveList (markFirst pathGuard : Bool) (g : ImportGraph) : Nat → L
     | none => none
     | some m => renameResolveList markFirst pathGuard g fuel m rest
 end
+
+/-! ## walks over a graph with many paths through few nodes (supertype lattices, select graphs): how many calls -/
+
+mutual
+/-- a walk over the successor lists `h` that counts its calls.  `memo`: a node that has been expanded (is in `seen`) is not
+expanded again.  Result: the nodes seen and the number of calls; `none` = out of fuel. -/
+def walkSteps (memo : Bool) (h : Hier) : Nat → List Nat → Nat → Option (List Nat × Nat)
+  | 0, _, _ => none
+  | fuel + 1, seen, e =>
+    if memo && decide (e ∈ seen) then some (seen, 1)
+    else
+      match walkStepsList memo h fuel (if memo then e :: seen else seen) (h e) with
+      | none => none
+      | some (s, k) => some (s, k + 1)
+def walkStepsList (memo : Bool) (h : Hier) : Nat → List Nat → List Nat → Option (List Nat × Nat)
+  | _, seen, [] => some (seen, 0)
+  | fuel, seen, c :: rest =>
+    match walkSteps memo h fuel seen c with
+    | none => none
+    | some (s1, k1) =>
+      match walkStepsList memo h fuel s1 rest with
+      | none => none
+      | some (s2, k2) => some (s2, k1 + k2)
+end
+
+/-- n levels, every node names the node below twice (two supertypes that share their ancestors): 2n + 1 … paths double per level -/
+def ladderH : Hier := fun i => if i = 0 then [] else [i - 1, i - 1]
+
+/-- exp2cxx's complex entity support copies a subtype's list for every path that leads to it; the constructor of every list
+node counts what has been built.  `budget = none`: no limit in the source.  `reject` = the diagnostic and the failure status. -/
+def countNode (budget : Option Nat) (built : Nat) : Outcome Nat :=
+  match budget with
+  | some b => if b < built + 1 then .reject else .ok (built + 1)
+  | none => .ok (built + 1)
 
 /-! ## nesting depth of expressions, statements, types, supertype expressions -/
 
